@@ -1105,6 +1105,10 @@ fn directed_probes(ctx: &mut Ctx) {
     let trns_late = serialize(&[ihdr(3, 2, 8, 0, 0), actl(2, 0), fc(0), RawChunk::new(b"IDAT", z.clone()), RawChunk::new(b"tRNS", vec![0, 1]), fc(1), fd(2), RawChunk::new(b"IEND", vec![])]);
     // a stream whose first data chunk is an fdAT (no IDAT at all), tRNS between the frames (found by the Reader invariant proof)
     let fdat_first = unhex("89504e470d0a1a0a0000000d4948445200000002000000010800000000d1492056000000086163544c0000000200000000f38d93700000001a6663544c0000000000000002000000010000000000000000000100010000f57c59980000000f6664415400000001789c63e0120100002b001f6653984a0000000274524e53000a964624260000001a6663544c000000020000000200000001000000000000000000010001000018ea8a710000000f6664415400000003789c6390d30000006700479b3e7dbd0000000049454e44ae426082").unwrap_or_default();
+    // an EMPTY PLTE (parsed since f31d047: palette = Some([])) on an indexed image, with and without tRNS, under EXPAND
+    let zi = zlib_stream(&[0, 0, 1, 2, 0, 3, 4, 5], &Deflater::Stored(100));
+    let empty_plte = serialize(&[ihdr(3, 2, 8, 3, 0), RawChunk::new(b"PLTE", vec![]), RawChunk::new(b"IDAT", zi.clone()), RawChunk::new(b"IEND", vec![])]);
+    let empty_plte_trns = serialize(&[ihdr(3, 2, 8, 3, 0), RawChunk::new(b"PLTE", vec![]), RawChunk::new(b"tRNS", vec![]), RawChunk::new(b"IDAT", zi.clone()), RawChunk::new(b"IEND", vec![])]);
     let idat_end = apng.windows(4).position(|w| w == b"IDAT").unwrap() + 4 + z.len() + 4;
     let probes: Vec<(&str, Vec<u8>, usize, Vec<Op>, u8)> = vec![
         ("finish-then-next_frame_info", still.clone(), still.len(), vec![Op::ReadInfo, Op::Finish, Op::NextFrameInfo], 0),
@@ -1113,7 +1117,14 @@ fn directed_probes(ctx: &mut Ctx) {
         ("trns-after-idat", trns_late.clone(), trns_late.len(), vec![Op::ReadInfo, Op::NextFrame(0), Op::NextFrame(0), Op::NextFrame(0)], 1),
         ("trns-after-idat-rows", trns_late.clone(), trns_late.len(), vec![Op::ReadInfo, Op::NextRow, Op::NextRow, Op::NextRow, Op::NextRow, Op::NextRow], 1),
         ("fdat-first-trns-between-frames", fdat_first.clone(), fdat_first.len(), vec![Op::ReadInfo, Op::NextFrame(0), Op::NextFrameInfo, Op::NextFrame(0)], 1),
+        ("empty-plte-expand", empty_plte.clone(), empty_plte.len(), vec![Op::ReadInfo, Op::NextFrame(0)], 1),
+        ("empty-plte-expand-rows", empty_plte.clone(), empty_plte.len(), vec![Op::ReadInfo, Op::NextRow, Op::ReadRow, Op::Finish], 5),
+        ("empty-plte-identity", empty_plte.clone(), empty_plte.len(), vec![Op::ReadInfo, Op::NextFrame(0)], 0),
+        ("empty-plte-empty-trns-expand", empty_plte_trns.clone(), empty_plte_trns.len(), vec![Op::ReadInfo, Op::NextFrame(0), Op::Finish], 1),
+        ("empty-plte-empty-trns-alpha", empty_plte_trns.clone(), empty_plte_trns.len(), vec![Op::ReadInfo, Op::NextRow, Op::NextRow, Op::NextRow], 5),
     ];
+    let mut probe_runs = vec![];
+    let mut probe_traces = vec![];
     for (name, file, v0, ops, flags) in probes {
         let mut c = Config::default();
         c.flags = flags;
@@ -1124,7 +1135,10 @@ fn directed_probes(ctx: &mut Ctx) {
             let site = t.tokens.last().cloned().unwrap_or_default();
             ctx.rep.violation("oracle", &format!("panic/{}", panic_key(&site)), &format!("probe {}: [{}]: {}", name, rops::ops_string(&ops), site), case(&file, v0, &ops, &c));
         }
+        probe_runs.push((file.clone(), v0, ops.clone(), c.clone(), true));
+        probe_traces.push(t);
     }
+    model_batch(ctx, &probe_runs, &probe_traces, "probe");
     // extreme header geometry (each dimension at the edges of u32 and of the Adam7 8x8 grid), both interlace methods:
     // no arithmetic on width/height may overflow before the limits are charged
     let edge: [u32; 12] = [1, 2, 7, 8, 9, 0xFFFF, 0x1_0000, 0x7FFF_FFFF, 0x8000_0000, 0xFFFF_FFF8, 0xFFFF_FFF9, 0xFFFF_FFFF];
